@@ -16,6 +16,8 @@ import (
 
 	"github.com/specterops/dawgs/cardinality"
 	"github.com/specterops/dawgs/container"
+	cutil "github.com/specterops/dawgs/container/util"
+	cyphermodel "github.com/specterops/dawgs/cypher/models/cypher"
 	"github.com/specterops/dawgs/graph"
 )
 
@@ -29,6 +31,14 @@ import (
 //   proj DN DE | proj2 DN DE      handle `proj` := ts.Projection / proj.Projection (ok); sets are `a,b,c` or `-`
 //   proj H PARENT DN DE           handle H := PARENT.Projection(DN, DE), PARENT = store or an existing handle (ok);
 //                                 every handle is a first-class container name C below (nested projections)
+//                                 optional 6th token PN/PE = the Duplex implementation the two argument sets are passed in:
+//                                 b64 (NewBitmap64With), tsd (ThreadSafeDuplex of it), tsd2 (doubly wrapped)
+//   build DESC                    the FACTORY entry points on one adjacency description (a Go map; `src>d1,d2;src>;src>~`, `~` = nil
+//                                 list): container `fam` := container.BuildAdjacencyMapGraph(DESC), `fcsr` := util.BuildGraph(
+//                                 container.NewCSRDigraphBuilder, DESC); both are observed through a canonicalising wrapper (sorted
+//                                 EachNode / EachAdjacentNode) because Go map iteration order is random
+//   fetch all|k0|k1               container `fetch` := container.FetchDirectedGraph / FetchFilteredDirectedGraph over a stub
+//                                 graph.Database holding the case's edges (kind of an edge = K<id%2>)
 //   snap H                        full canonical view of handle H (NumNodes, EachNode, NumEdges, EachEdge, per node and
 //                                 direction EachAdjacentNode as a set / EachAdjacentEdge ids) and of the caller-owned bitmaps
 //   From the first `proj` of a case on, EVERY answer carries ` ## H=<view hash>:<argument hash> …` for all live handles
@@ -288,17 +298,27 @@ func (c14Suite) Gen(rng *Rng, tier string, w *bufio.Writer, stats *Stats) {
 					}
 					return
 				}
+				// the Duplex implementation of the argument sets: (parent, child) in every combination
+				provs := []string{"b64", "tsd"}
+				if !thorough || k <= 2 {
+					provs = []string{"b64", "tsd", "tsd2"}
+				}
 				for n1 := 0; n1 < 1<<k; n1++ {
 					for e1 := 0; e1 < 1<<m; e1++ {
 						dn1, de1 := subset(n1, e1)
-						c.add("proj p store %s %s", idsTok(dn1), idsTok(de1))
-						for n2 := 0; n2 < 1<<k; n2++ {
-							for e2 := 0; e2 < 1<<m; e2++ {
-								dn2, de2 := subset(n2, e2)
-								c.add("proj c p %s %s", idsTok(dn2), idsTok(de2))
-								nestedDerivations++
+						for _, pp := range provs {
+							c.add("proj p store %s %s %s/%s", idsTok(dn1), idsTok(de1), pp, pp)
+							for n2 := 0; n2 < 1<<k; n2++ {
+								for e2 := 0; e2 < 1<<m; e2++ {
+									dn2, de2 := subset(n2, e2)
+									for _, cp := range provs {
+										c.add("proj c p %s %s %s/%s", idsTok(dn2), idsTok(de2), cp, cp)
+										nestedDerivations++
+									}
+								}
 							}
 						}
+						c.add("proj p store %s %s", idsTok(dn1), idsTok(de1))
 						c.add("proj c p 77 999") // ids that are neither nodes nor edges of the store
 						c.add("proj s p - -")    // a sibling derived after the children
 						c.add("nodes p")
@@ -315,6 +335,89 @@ func (c14Suite) Gen(rng *Rng, tier string, w *bufio.Writer, stats *Stats) {
 	}
 	stats.Add("exhaustive.nested_projection.graphs", nestedGraphs)
 	stats.Add("exhaustive.nested_projection.derivations", nestedDerivations)
+
+	// (2c) factory entry points: every adjacency description over k labelled nodes — per node: not a key, key with a nil
+	// list, key with an empty list, key with every non-empty out-list (and one with a repeated destination) — built by
+	// BuildAdjacencyMapGraph and util.BuildGraph(NewCSRDigraphBuilder), and in explicit AddNode/AddEdge form
+	fk := 2
+	if thorough {
+		fk = 3
+	}
+	fids := []uint64{1<<33 + 1, 5, 1<<63 + 1}
+	var factoryCases int64
+	for k := 1; k <= fk; k++ {
+		var opts [][]string // per node: the textual out-list, "" = not a key
+		for i := 0; i < k; i++ {
+			o := []string{"", "~", "="}
+			for mask := 1; mask < 1<<k; mask++ {
+				var ds []string
+				for j := 0; j < k; j++ {
+					if mask>>j&1 == 1 {
+						ds = append(ds, strconv.FormatUint(fids[j], 10))
+					}
+				}
+				o = append(o, strings.Join(ds, ","))
+			}
+			o = append(o, fmt.Sprintf("%d,%d", fids[i], fids[i])) // repeated destination (self loop twice)
+			opts = append(opts, o)
+		}
+		idx := make([]int, k)
+		for {
+			c := &c14Case{title: fmt.Sprintf("exhaustive-factory k=%d", k)}
+			var ents []string
+			for i := 0; i < k; i++ {
+				switch o := opts[i][idx[i]]; o {
+				case "":
+				case "~":
+					ents = append(ents, fmt.Sprintf("%d>~", fids[i]))
+					c.add("node %d", fids[i])
+				case "=":
+					ents = append(ents, fmt.Sprintf("%d>", fids[i]))
+					c.add("node %d", fids[i])
+				default:
+					ents = append(ents, fmt.Sprintf("%d>%s", fids[i], o))
+					c.add("node %d", fids[i])
+					for j, d := range strings.Split(o, ",") {
+						c.add("node %s", d)
+						c.add("edge %d %d %s", 100+10*i+j, fids[i], d)
+					}
+				}
+			}
+			desc := "-"
+			if len(ents) > 0 {
+				desc = strings.Join(ents, ";")
+			}
+			c.add("build %s", desc)
+			for _, g := range []string{"fam", "fcsr", "am", "csr"} {
+				c.add("nodes %s", g)
+				c.add("numedges %s", g)
+				for _, d := range c14Dirs {
+					c.add("adj %s %s", g, d)
+				}
+				c.add("dims %s both", g)
+				c.add("reach %s out", g)
+				c.add("bfs %s in", g)
+			}
+			c.add("fetch all")
+			c.add("nodes fetch")
+			c.add("adj fetch both")
+			emit(c)
+			factoryCases++
+			// next combination
+			i := 0
+			for ; i < k; i++ {
+				idx[i]++
+				if idx[i] < len(opts[i]) {
+					break
+				}
+				idx[i] = 0
+			}
+			if i == k {
+				break
+			}
+		}
+	}
+	stats.Add("exhaustive.factory.descriptions", factoryCases)
 
 	// (3) random structured multigraphs
 	n := 300
@@ -459,7 +562,11 @@ func c14Random(rng *Rng, stats *Stats, idx int) *c14Case {
 				he = append(he, e.id)
 			}
 		}
-		c.add("proj %s %s %s %s", h, parent, idsTok(hn), idsTok(he))
+		if rng.Chance(1, 4) {
+			// overlap with the parent's sets plus LARGER new values (a merge that stops early loses them)
+			hn = append(hn, pool[rng.Intn(len(pool))], ^uint64(0)-uint64(p)-5, 1<<33+uint64(p))
+		}
+		c.add("proj %s %s %s %s %s/%s", h, parent, idsTok(hn), idsTok(he), Pick(rng, []string{"b64", "tsd", "tsd2"}), Pick(rng, []string{"b64", "tsd", "tsd2"}))
 		c.add("nodes %s", h)
 		c.add("adj %s %s", h, c14Dirs[rng.Intn(3)])
 		if p > 0 {
@@ -475,6 +582,51 @@ func c14Random(rng *Rng, stats *Stats, idx int) *c14Case {
 		for _, v := range dn {
 			c.add("adj1 proj %s %d", c14Dirs[rng.Intn(3)], v) // a deleted node has no neighbours
 		}
+	}
+	// factories on the same graph: the description groups the edges by start node; declared-only nodes become keys with a nil or
+	// an empty list; and the relationship fetchers over the case's edges
+	{
+		outs := map[uint64][]uint64{}
+		var keys []uint64
+		for _, e := range edges {
+			if _, ok := outs[e.s]; !ok {
+				keys = append(keys, e.s)
+			}
+			outs[e.s] = append(outs[e.s], e.e)
+		}
+		var ents []string
+		for _, k := range keys {
+			ents = append(ents, fmt.Sprintf("%d>%s", k, idsTok(outs[k])))
+		}
+		for _, id := range pool {
+			if _, ok := outs[id]; !ok && rng.Chance(1, 3) {
+				if rng.Bool() {
+					ents = append(ents, fmt.Sprintf("%d>~", id))
+				} else {
+					ents = append(ents, fmt.Sprintf("%d>", id))
+				}
+			}
+		}
+		if len(ents) > 0 {
+			c.add("build %s", strings.Join(ents, ";"))
+			for _, g := range []string{"fam", "fcsr"} {
+				c.add("nodes %s", g)
+				c.add("numedges %s", g)
+				d := c14Dirs[rng.Intn(3)]
+				c.add("adj %s %s", g, d)
+				c.add("reach %s %s", g, d)
+				c.add("bfs %s %s", g, d)
+				c.add("dims %s %s", g, d)
+			}
+		}
+		which := Pick(rng, []string{"all", "k0", "k1"})
+		c.add("fetch %s", which)
+		c.add("nodes fetch")
+		c.add("numedges fetch")
+		for _, d := range c14Dirs {
+			c.add("adj fetch %s", d)
+		}
+		c.add("reach fetch out")
 	}
 	// the store grows after the handles were taken: every view follows its origin
 	if rng.Chance(1, 3) {
@@ -506,6 +658,10 @@ func c14Random(rng *Rng, stats *Stats, idx int) *c14Case {
 		if len(edges) > 0 {
 			e := edges[rng.Intn(len(edges))]
 			c.add("toseg %d,%d %d", e.s, e.e, e.id)
+			// ill-formed shapes: surplus edges, missing edges, no nodes
+			c.add("toseg %d,%d %d,%d,%d", e.s, e.e, e.id, e.id+1, e.id+2)
+			c.add("toseg %d,%d,%d,%d %d", e.s, e.e, e.s, c14PickID(rng, pool), e.id)
+			c.add("toseg - %d", e.id)
 		}
 	}
 	// triple-store traversals (kept small; maxDepth <= 0 only on acyclic graphs and never with `both`)
@@ -623,6 +779,7 @@ type c14Runner struct {
 	ts    container.MutableTriplestore
 	handles map[string]*c14Handle
 	snapOn  bool
+	extra   map[string]container.DirectedGraph // fam, fcsr, fetch
 }
 
 // c14Handle is one projection handle together with the caller-owned bitmaps that were passed to Projection.
@@ -646,6 +803,151 @@ func (r *c14Runner) reset() {
 	n, e := cardinality.NewBitmap64(), cardinality.NewBitmap64()
 	r.handles = map[string]*c14Handle{"proj": {ts: r.ts.Projection(n, e), argN: n, argE: e}}
 	r.snapOn = false
+	r.extra = map[string]container.DirectedGraph{}
+}
+
+// canonGraph observes a factory-built graph in a deterministic order (the factories range over a Go map).
+type canonGraph struct{ g container.DirectedGraph }
+
+func (c canonGraph) NumNodes() uint64 { return c.g.NumNodes() }
+func (c canonGraph) NumEdges() uint64 {
+	if ne, ok := c.g.(interface{ NumEdges() uint64 }); ok {
+		return ne.NumEdges()
+	}
+	return 0
+}
+func (c canonGraph) EachNode(delegate func(node uint64) bool) {
+	ns := eachNode(c.g)
+	sort.Slice(ns, func(i, j int) bool { return ns[i] < ns[j] })
+	for _, n := range ns {
+		if !delegate(n) {
+			return
+		}
+	}
+}
+func (c canonGraph) EachAdjacentNode(node uint64, d graph.Direction, delegate func(adjacent uint64) bool) {
+	as := adjSeq(c.g, node, d)
+	sort.Slice(as, func(i, j int) bool { return as[i] < as[j] })
+	for _, a := range as {
+		if !delegate(a) {
+			return
+		}
+	}
+}
+
+// c14StubDB is the smallest graph.Database that container.FetchDirectedGraph can run against: a read transaction whose
+// relationship query supports Filter (nil or a KindMatcher) and Query, yielding (start id, end id) rows.
+type c14StubDB struct {
+	graph.Database
+	edges []c14Edge
+}
+type c14StubTx struct {
+	graph.Transaction
+	db *c14StubDB
+}
+type c14StubRelQ struct {
+	graph.RelationshipQuery
+	db    *c14StubDB
+	kinds map[string]bool
+	err   error
+}
+type c14StubResult struct {
+	graph.Result
+	rows [][2]uint64
+	i    int
+}
+
+func c14EdgeKind(id uint64) string { return fmt.Sprintf("K%d", id%2) }
+
+func (d *c14StubDB) ReadTransaction(_ context.Context, delegate graph.TransactionDelegate, _ ...graph.TransactionOption) error {
+	return delegate(&c14StubTx{db: d})
+}
+func (t *c14StubTx) Relationships() graph.RelationshipQuery { return &c14StubRelQ{db: t.db} }
+func (q *c14StubRelQ) Filter(c graph.Criteria) graph.RelationshipQuery {
+	switch m := c.(type) {
+	case nil:
+	case *cyphermodel.KindMatcher:
+		q.kinds = map[string]bool{}
+		for _, k := range m.Kinds {
+			q.kinds[k.String()] = true
+		}
+	default:
+		q.err = fmt.Errorf("c14 stub db: unsupported criteria %T", c)
+	}
+	return q
+}
+func (q *c14StubRelQ) Query(delegate func(graph.Result) error, _ ...graph.Criteria) error {
+	if q.err != nil {
+		return q.err
+	}
+	res := &c14StubResult{}
+	for _, e := range q.db.edges {
+		if q.kinds == nil || q.kinds[c14EdgeKind(e.id)] {
+			res.rows = append(res.rows, [2]uint64{e.s, e.e})
+		}
+	}
+	return delegate(res)
+}
+func (r *c14StubResult) Next() bool { r.i++; return r.i <= len(r.rows) }
+func (r *c14StubResult) Scan(targets ...any) error {
+	if len(targets) != 2 {
+		return fmt.Errorf("c14 stub db: scan wants 2 targets")
+	}
+	for k, t := range targets {
+		id, ok := t.(*graph.ID)
+		if !ok {
+			return fmt.Errorf("c14 stub db: scan target %T", t)
+		}
+		*id = graph.ID(r.rows[r.i-1][k])
+	}
+	return nil
+}
+func (r *c14StubResult) Error() error { return nil }
+func (r *c14StubResult) Close()       {}
+
+// c14Provider builds a Duplex[uint64] holding the ids in the requested implementation.
+func c14Provider(kind string, ids []uint64) (cardinality.Duplex[uint64], bool) {
+	b := cardinality.NewBitmap64With(ids...)
+	switch kind {
+	case "", "b64":
+		return b, true
+	case "tsd":
+		return cardinality.ThreadSafeDuplex(b), true
+	case "tsd2":
+		return cardinality.ThreadSafeDuplex(cardinality.ThreadSafeDuplex(b)), true
+	}
+	return nil, false
+}
+
+// parseDesc reads `src>d1,d2;src>;src>~` into the map a factory takes (`~` = nil list, nothing = empty list).
+func parseDesc(s string) (map[uint64][]uint64, bool) {
+	adj := map[uint64][]uint64{}
+	if s == "-" {
+		return adj, true
+	}
+	for _, ent := range strings.Split(s, ";") {
+		k, v, ok := strings.Cut(ent, ">")
+		if !ok {
+			return nil, false
+		}
+		src, err := strconv.ParseUint(k, 10, 64)
+		if err != nil {
+			return nil, false
+		}
+		switch v {
+		case "~":
+			adj[src] = nil
+		case "":
+			adj[src] = []uint64{}
+		default:
+			outs, ok := parseIDs(v)
+			if !ok {
+				return nil, false
+			}
+			adj[src] = outs
+		}
+	}
+	return adj, true
 }
 
 // tsOf resolves `ts` or a projection handle.
@@ -761,6 +1063,9 @@ func (r *c14Runner) view(c string) container.DirectedGraph {
 	}
 	if h, ok := r.handles[c]; ok {
 		return h.ts
+	}
+	if g, ok := r.extra[c]; ok {
+		return g
 	}
 	return nil
 }
@@ -947,24 +1252,75 @@ func (r *c14Runner) step0(t []string, raw string) string {
 		r.ts.(interface{ DeleteEdge(uint64) }).DeleteEdge(id)
 		r.stats.Inc("branch.ts.delete_edge")
 		return "ok"
-	case (len(t) == 3 && (t[0] == "proj" || t[0] == "proj2")) || (len(t) == 5 && t[0] == "proj"):
+	case len(t) == 2 && t[0] == "build":
+		adj, ok := parseDesc(t[1])
+		if !ok {
+			return "bad-op"
+		}
+		r.extra["fam"] = canonGraph{container.BuildAdjacencyMapGraph(adj)}
+		r.extra["fcsr"] = canonGraph{cutil.BuildGraph(container.NewCSRDigraphBuilder, adj)}
+		r.stats.Inc("branch.factory.build")
+		for _, outs := range adj {
+			if outs == nil {
+				r.stats.Inc("branch.factory.nil_list")
+			} else if len(outs) == 0 {
+				r.stats.Inc("branch.factory.empty_list")
+			}
+		}
+		return "ok"
+	case len(t) == 2 && t[0] == "fetch":
+		db := &c14StubDB{}
+		for _, o := range r.log {
+			if !o.node {
+				db.edges = append(db.edges, c14Edge{id: o.id, s: o.s, e: o.e})
+			}
+		}
+		var g container.DirectedGraph
+		var err error
+		switch t[1] {
+		case "all":
+			g, err = container.FetchDirectedGraph(context.Background(), db, nil)
+		case "k0", "k1":
+			g, err = container.FetchFilteredDirectedGraph(context.Background(), db, graph.StringKind("K"+t[1][1:]))
+		default:
+			return "bad-op"
+		}
+		if err != nil {
+			return "error " + strings.ReplaceAll(err.Error(), " ", "_")
+		}
+		r.extra["fetch"] = g
+		r.stats.Inc("branch.factory.fetch." + t[1])
+		return "ok"
+	case (len(t) == 3 && (t[0] == "proj" || t[0] == "proj2")) || ((len(t) == 5 || len(t) == 6) && t[0] == "proj"):
 		name, parent := "proj", "store"
 		if t[0] == "proj2" {
 			parent = "proj"
 		}
-		if len(t) == 5 {
+		provN, provE := "b64", "b64"
+		nTok, eTok := t[len(t)-2], t[len(t)-1]
+		if len(t) >= 5 {
 			name, parent = t[1], t[2]
+			nTok, eTok = t[3], t[4]
 			switch name {
-			case "am", "csr", "ts", "store":
+			case "am", "csr", "ts", "store", "fam", "fcsr", "fetch":
 				return "bad-op"
 			}
+			if len(t) == 6 {
+				var ok bool
+				if provN, provE, ok = strings.Cut(t[5], "/"); !ok {
+					return "bad-op"
+				}
+			}
 		}
-		dn, ok1 := parseIDs(t[len(t)-2])
-		de, ok2 := parseIDs(t[len(t)-1])
-		if !ok1 || !ok2 {
+		dn, ok1 := parseIDs(nTok)
+		de, ok2 := parseIDs(eTok)
+		argN, ok3 := c14Provider(provN, dn)
+		argE, ok4 := c14Provider(provE, de)
+		if !ok1 || !ok2 || !ok3 || !ok4 {
 			return "bad-op"
 		}
-		argN, argE := cardinality.NewBitmap64With(dn...), cardinality.NewBitmap64With(de...)
+		r.stats.Inc("branch.proj.provider." + provN)
+		r.stats.Inc("branch.proj.provider." + provE)
 		var derived container.Triplestore
 		if parent == "store" {
 			derived = r.ts.Projection(argN, argE)
